@@ -186,3 +186,7 @@ Corollary run_not_returned_progress cfg s : 1 <= c_limit cfg -> reachable cfg s 
 Proof.
   intros Hlim Hr Hm. apply deadlock_free; auto. unfold finished. rewrite Hm. reflexivity.
 Qed.
+
+Corollary limit_one_completes cfg s : c_limit cfg = 1 -> reachable cfg s -> finished s = false ->
+  exists t, step cfg s t <> None.
+Proof. intros H. apply deadlock_free. rewrite H. apply le_n. Qed.
